@@ -217,7 +217,8 @@ def _chunk(items: list) -> list:
             for kind, msg in replay(b):
                 out.append((kind, msg, b))
         except Exception as e:  # noqa: BLE001
-            out.append(('machinery', f'{type(e).__name__}: {e}', b))
+            where = common.raised_in_repo(e)
+            out.append(('crash' if where else 'machinery', f'{type(e).__name__}: {e}' + (f' (raised in {where})' if where else ''), b))
     return out
 
 
